@@ -11,45 +11,6 @@ namespace Rtp.Props.C08.AV1
 open Rtp Rtp.Model Rtp.Model.AV1
 open Rtp.Model.ObuLemmas
 
-theorem step_size (mtu : Nat) (hm : 2 ≤ mtu) (hs : mtu ≤ 65535) (s : PSt) (hb : ObuHeader × Bytes)
-    (h : ∀ p ∈ s.out, p.size ≤ mtu) : ∀ p ∈ (step mtu s hb).out, p.size ≤ mtu := by
-  unfold step
-  dsimp only
-  have key : ∀ p ∈ (if s.pending.isEmpty then
-        (if needNew s.cur hb.1 then { s with startNew := true, cur := none } else s)
-      else
-        (let r := appendObu s.out s.pending s.newSeq (needNew s.cur hb.1) s.startNew mtu s.count
-         let s' : PSt := { s with out := r.1, count := r.2, pending := [], startNew := needNew s.cur hb.1 }
-         if needNew s.cur hb.1 then { s' with newSeq := false, cur := none } else s')).out,
-      p.size ≤ mtu := by
-    split
-    · split <;> exact h
-    · rename_i hne
-      have hp : s.pending ≠ [] := by intro h'; rw [h'] at hne; simp at hne
-      have := appendObu_size s.out s.pending s.newSeq (needNew s.cur hb.1) s.startNew mtu s.count hm hs hp h
-      dsimp only
-      split <;> exact this
-  split <;> (split <;> exact key)
-
-theorem foldl_size (mtu : Nat) (hm : 2 ≤ mtu) (hs : mtu ≤ 65535) (l : List (ObuHeader × Bytes)) (s : PSt)
-    (h : ∀ p ∈ s.out, p.size ≤ mtu) : ∀ p ∈ (l.foldl (step mtu) s).out, p.size ≤ mtu := by
-  induction l generalizing s with
-  | nil => exact h
-  | cons a l ih => exact ih _ (step_size mtu hm hs s a h)
-
-theorem payloadPks_size (mtu : Nat) (hm : 2 ≤ mtu) (hs : mtu ≤ 65535) (data : Bytes) :
-    ∀ p ∈ payloadPks mtu data, p.size ≤ mtu := by
-  intro p hp
-  simp only [payloadPks, List.mem_reverse, finish] at hp
-  have h0 := foldl_size mtu hm hs (walk data.length data) {} (by simp)
-  split at hp
-  · exact h0 p hp
-  · rename_i hne
-    refine appendObu_size _ _ _ _ _ _ _ hm hs ?_ h0 p hp
-    intro h'; rw [h'] at hne; simp at hne
-
-theorem encode_length (p : Pk) : p.encode.length = p.size := AV1B.encode_length p
-
 /-- every MTU and every input: each returned payload is at most MTU bytes long and not empty -/
 theorem c08_av1_bound (mtu : UInt16) (data : Bytes) :
     ∀ f ∈ AV1.payload mtu data, f.length ≤ mtu.toNat ∧ f ≠ [] := by
@@ -62,7 +23,7 @@ theorem c08_av1_bound (mtu : UInt16) (data : Bytes) :
     simp only [List.mem_map] at hf
     obtain ⟨p, hp, rfl⟩ := hf
     have hs : mtu.toNat ≤ 65535 := by have := mtu.toNat_lt; omega
-    exact ⟨by rw [encode_length]; exact payloadPks_size mtu.toNat (by omega) hs data p hp,
+    exact ⟨by rw [AV1B.encode_length]; exact payloadPks_size mtu.toNat (by omega) hs data p hp,
            by simp [Pk.encode]⟩
 
 /-- kind `c08.av1`: the shared C08 predicate holds of the model for every history of calls
